@@ -292,7 +292,7 @@ theorem pegSkipAlts_spans (hr : PRunOK run) (p : Nat) : ∀ xs q,
     · rename_i v p' he
       split at h
       · simp at h; subst h; exact (hr x p v _ he hnl.1).1
-      · simp at h
+      · exact ih _ h hnl.2
 
 theorem pegSkipLoop_spans (hr : PRunOK run) (xs : List Expr) (hnl : NoLookList xs = true) :
     ∀ fuel p v p', pegSkipLoop run xs fuel p = some (.ok v p') → p ≤ p' ∧ v = .none := by
